@@ -10,7 +10,7 @@ with a stale value and some combinations are never produced."""
 from vfacts import strip, walk, must_pass_through, is_node
 
 RULE = 'PARALLEL'
-FLOOR = 2
+FLOOR = 1
 ANCHORS = ['ChoiceFunctionGenerator::GetNext']
 
 
